@@ -44,6 +44,7 @@ type Profile struct {
 	PStructIn     int  // % of top-level struct records handed over as a Go struct value instead of a map
 	PTopPtrRecord int  // % of top-level schemas that are Ptr(Struct) over a flat record with exported keys
 	PSiblings     int  // % of top-level structs given a catching string field whose test usually fails, next to a slice or struct field with at least two tests
+	PRewrite      int  // % of slices of strings whose item schema rewrites items in place (Catch over a failing test, Default over a zero item) under a slice test about the contents
 	PLongOneOf    int  // % of built-in tests on strings and numbers that are a OneOf over a long list with no custom message
 	NilBias       bool // whole inputs are re-drawn (up to 10 times) until the implementation reports no issues
 	Repeats       int  // how many times a case is re-run (with reshuffled schema insertion orders and varying pool states)
@@ -357,6 +358,7 @@ func (g *Gen) node(depth int) *Node {
 				}
 			}
 			g.tests(n)
+			g.rewriteScenario(n)
 			g.pts(n)
 			return n
 		case c < g.P.PStruct+g.P.PSlice+g.P.PPtr:
@@ -502,6 +504,34 @@ func (g *Gen) strct(depth int) *Node {
 }
 
 // Schema generates a top-level schema: mostly structs, sometimes slices / pointers / primitives.
+// rewriteScenario turns a slice of primitives (under a profile with PRewrite) into a slice of strings whose
+// item schema rewrites items in place, with a slice test about the contents.
+func (g *Gen) rewriteScenario(n *Node) {
+	r := g.R
+	if g.P.PRewrite > 0 && IsPrim(n.Elem.Kind) && n.Coercer == "" && !n.HasDef && r.P(g.P.PRewrite) {
+		n.Elem = &Node{Kind: KString}
+		n.Tests = nil
+		// the value a slice test must hold of is the slice as the execution leaves it: items rewritten by
+		// their own schema (a Catch value over a failing test, a Default over a zero item) included
+		e := n.Elem
+		var el Leaf
+		if r.P(50) {
+			e.Tests = append([]TestSpec{{Builtin: "min", N: 3}}, e.Tests...)
+			if e.Catch == nil {
+				e.Catch = &Leaf{Kind: KString, S: "caught"}
+			}
+			// the slice must contain: the value the rewrite puts there / a value the rewrite removes
+			el = Leaf{Kind: KString, S: Pick(r, []string{e.Catch.S, e.Catch.S, e.Catch.S, "a", "ab"})}
+		} else {
+			if e.Def == nil {
+				e.Def = &Leaf{Kind: KString, S: "dflt"}
+			}
+			el = Leaf{Kind: KString, S: Pick(r, []string{e.Def.S, e.Def.S, e.Def.S, ""})}
+		}
+		n.Tests = append(n.Tests, TestSpec{Builtin: "contains", Elem: &el})
+	}
+}
+
 func (g *Gen) Schema() *Node {
 	if g.P.PTopPtrRecord > 0 && g.R.P(g.P.PTopPtrRecord) {
 		g.forceExported = true
@@ -516,6 +546,7 @@ func (g *Gen) Schema() *Node {
 		}
 		g.req(n)
 		g.tests(n)
+		g.rewriteScenario(n)
 		return n
 	}
 	c := g.R.Intn(100)
@@ -576,6 +607,8 @@ func ProfileByName(name string) Profile {
 		p.PCatch = 15
 		p.MaxFields = 2
 		p.NilBias = true
+		p.PRewrite = 70
+		p.PTopSlice = 15
 		p.PSpecialFloat = 35
 		p.Kinds = []string{KString, KInt, KFloat64, KFloat64, KFloat32, KInt64, KBool, KTime} // floats: NaN and the infinities are values too
 	case "C06":
